@@ -31,6 +31,16 @@ class NumberLimitsWarning(Warning):
     pass
 
 
+def num_str_len(value):
+    """Length of a numeric literal as far as ``max_str_len`` is concerned: the
+    sign and leading zeros belong to the lexical space of the Xml Schema numeric
+    types but say nothing about the magnitude of the number."""
+
+    if isinstance(value, six.binary_type):
+        return len(value.lstrip(b'+-').lstrip(b'0'))
+    return len(value.lstrip('+-').lstrip('0'))
+
+
 class Decimal(SimpleModel):
     """The primitive that corresponds to the native python Decimal.
 
@@ -189,7 +199,7 @@ class Decimal(SimpleModel):
     @staticmethod
     def validate_string(cls, value):
         return SimpleModel.validate_string(cls, value) and (
-            value is None or (len(value) <= cls.Attributes.max_str_len)
+            value is None or (num_str_len(value) <= cls.Attributes.max_str_len)
         )
 
     @staticmethod
